@@ -1,7 +1,7 @@
 (* Entry point of the extracted runner: one case in, one observation out.
    The first integer of a case selects the model family. *)
 From Coq Require Import ZArith List.
-From Verif Require Import Sexp CondCodec TokenCodec MintCodec.
+From Verif Require Import Sexp CondCodec TokenCodec SelectCodec CryptoCodec MintCodec.
 Import ListNotations.
 Open Scope Z_scope.
 
@@ -9,6 +9,8 @@ Definition run_case (c : sexp) : sexp :=
   match c with
   | L [A 1; x] => run_cond x
   | L [A 2; x] => run_token x
+  | L [A 3; x] => run_select x
+  | L [A 4; x] => run_crypto x
   | L [A 5; x] => run_mint x
   | _ => bad_case
   end.
